@@ -339,5 +339,10 @@ m("C20", "C20-registermodule-skips-existing-table", "R20-order:RegisterModule:ad
 m("C20", "C20-require-reads-registry-loaders", "R20-order:loRequire:searchers-from-package.loaders", ("baselib.go", "\tloaders, ok := L.GetField(packageTable(L), \"loaders\").(*LTable)", "\tloaders, ok := L.GetField(L.Get(RegistryIndex), \"_LOADERS\").(*LTable)"))
 for _p in ("C06", "C12"):
     m(_p, _p + "-yield-room-not-checked-first", "R06-killarg:switchToParentThread:room-checked-before-the-switch", ("vm.go", "\tif !kill && !parent.reg.canHold(nargs+1) {\n\t\t// a yield: the resumer must have room for the values (and the leading true) before anything is\n\t\t// switched. Where it has not, the yield fails as an error of the coroutine - not half-way through\n\t\t// the hand-over, which left the thread suspended with the same yield still pending\n\t\tL.RaiseError(\"registry overflow\")\n\t}\n", ""))
+
+m("C06", "C06-resume-finished-by-empty-stack", "R06-resumeapi:Resume:finished-told-by-the-dead-flag", ("state.go", "\t} else if th.Dead {\n\t\treturn ResumeOK, nil, ret\n\t}\n", "\t} else if th.stack.IsEmpty() {\n\t\treturn ResumeOK, nil, ret\n\t}\n"))
+for _p in ("C06", "C12"):
+    m(_p, _p + "-resume-values-moved-unchecked", "R06-resumeapi:resumeThread:room-checked-before-the-values-move", ("coroutinelib.go", "\t\tif !th.reg.canHold(nargs) {\n\t\t\t// the values of this resume do not fit into the suspended coroutine's registry: refused before\n\t\t\t// anything is moved (an overflow half-way left the values on its stack and the coroutine unusable)\n\t\t\tmsg := \"registry overflow\"\n\t\t\tif wrapped {\n\t\t\t\tL.RaiseError(msg)\n\t\t\t\treturn 0\n\t\t\t}\n\t\t\tL.Push(LFalse)\n\t\t\tL.Push(LString(msg))\n\t\t\treturn 2\n\t\t}\n", ""))
+m("C17", "C17-temporary-for-index-zero", "R17-scope:findLocal:temporary-only-for-a-positive-index", ("state.go", "\tif no > 0 && top-frame.LocalBase >= no {", "\tif top-frame.LocalBase >= no {"))
 if __name__ == "__main__":
     main()
